@@ -13,65 +13,70 @@ theorem states_match : sidecarStates =
 
 theorem terminal_match : terminalStates = [sCompleted, sCanceled] := by decide
 
-/-- clause conditions (source order), fallthroughs, result states, driver/mailbox calls and returned tickets
-of `stateStepProvider` are exactly what `provBody` models, clause by clause. -/
-theorem provider_table_matches : providerCases = [
-    ⟨false, [(0, sCreated), (2, sOffered)], false, some sOffered, ["MailBox.SendSidecarPkt"],
-      "pkt.ProviderTicket", "pkt.ReceiverTicket"⟩,
-    ⟨false, [(0, sOffered), (1, sRegistered)], false, some sRegistered, ["Driver.UpdateSidecar"],
-      "pkt.ReceiverTicket", "pkt.ReceiverTicket"⟩,
-    ⟨false, [(1, sCanceled)], false, some sCanceled, ["go a.TicketExecuted"],
-      "pkt.ReceiverTicket", "pkt.ProviderTicket"⟩,
-    ⟨false, [(0, sRegistered)], false, some sOrdered, ["Driver.SubmitSidecarOrder"],
-      "updatedTicket", "updatedTicket"⟩,
-    ⟨false, [(0, sExpecting), (1, sRegistered)], true, none, [], "", ""⟩,
-    ⟨false, [(0, sOrdered)], false, some sExpecting, ["MailBox.SendSidecarPkt", "Driver.UpdateSidecar"],
-      "&updatedTicket", "&updatedTicket"⟩,
-    ⟨true, [], false, none, [], "", ""⟩] := by decide
+/-- The clauses of `stateStepProvider` as a SET of (guard, effect) signatures: which state equalities guard a clause
+(as a set), the state of the packet it returns, the driver/mailbox calls it makes in order, which tickets it returns
+(locals replaced by their definition), and for a `fallthrough` clause the clause it falls into. The ORDER of the
+clauses is not pinned here: the selection semantics (first match in source order, on the regenerated table) is covered
+by `prov_select`, which holds for every order of mutually exclusive clauses. -/
+theorem provider_clauses_match : providerCasesSet = [
+      "default=false;guard=(0, 0)&(2, 1);result=some 1;calls=MailBox.SendSidecarPkt;recv=pkt.ProviderTicket;prov=pkt.ReceiverTicket",
+      "default=false;guard=(0, 1)&(1, 2);result=some 2;calls=Driver.UpdateSidecar;recv=pkt.ReceiverTicket;prov=pkt.ReceiverTicket",
+      "default=false;guard=(0, 2);result=some 3;calls=Driver.SubmitSidecarOrder;recv=a.cfg.Driver.SubmitSidecarOrder()#0;prov=a.cfg.Driver.SubmitSidecarOrder()#0",
+      "default=false;guard=(0, 3);result=some 4;calls=MailBox.SendSidecarPkt+Driver.UpdateSidecar;recv=&*pkt.ProviderTicket;prov=&*pkt.ProviderTicket",
+      "default=false;guard=(0, 4)&(1, 2);falls-into;result=some 4;calls=MailBox.SendSidecarPkt+Driver.UpdateSidecar;recv=&*pkt.ProviderTicket;prov=&*pkt.ProviderTicket",
+      "default=false;guard=(1, 6);result=some 6;calls=go a.TicketExecuted;recv=pkt.ReceiverTicket;prov=pkt.ProviderTicket",
+      "default=true;guard=;result=none;calls=;recv=;prov="] := rfl
 
-theorem recipient_table_matches : recipientCases = [
-    ⟨false, [(2, sOffered)], true, none, [], "", ""⟩,
-    ⟨false, [(0, sRegistered), (1, sRegistered), (2, sRegistered)], false, some sRegistered,
-      ["MailBox.SendSidecarPkt"], "pkt.ReceiverTicket", "pkt.ReceiverTicket"⟩,
-    ⟨false, [(0, sRegistered), (2, sOrdered)], false, some sExpecting,
-      ["Driver.ValidateOrderedTicket", "Driver.ExpectChannel"], "pkt.ProviderTicket", "pkt.ProviderTicket"⟩,
-    ⟨false, [(2, sCanceled)], false, some sCanceled, ["go a.TicketExecuted"],
-      "pkt.ReceiverTicket", "pkt.ProviderTicket"⟩,
-    ⟨false, [(0, sExpecting)], false, some sExpecting, ["Driver.ExpectChannel"],
-      "pkt.ReceiverTicket", "pkt.ProviderTicket"⟩,
-    ⟨true, [], false, none, [], "", ""⟩] := by decide
+theorem recipient_clauses_match : recipientCasesSet = [
+      "default=false;guard=(0, 2)&(1, 2)&(2, 2);result=some 2;calls=MailBox.SendSidecarPkt;recv=pkt.ReceiverTicket;prov=pkt.ReceiverTicket",
+      "default=false;guard=(0, 2)&(2, 3);result=some 4;calls=Driver.ValidateOrderedTicket+Driver.ExpectChannel;recv=pkt.ProviderTicket;prov=pkt.ProviderTicket",
+      "default=false;guard=(0, 4);result=some 4;calls=Driver.ExpectChannel;recv=pkt.ReceiverTicket;prov=pkt.ProviderTicket",
+      "default=false;guard=(2, 1);falls-into;result=some 2;calls=MailBox.SendSidecarPkt;recv=pkt.ReceiverTicket;prov=pkt.ReceiverTicket",
+      "default=false;guard=(2, 6);result=some 6;calls=go a.TicketExecuted;recv=pkt.ReceiverTicket;prov=pkt.ProviderTicket",
+      "default=true;guard=;result=none;calls=;recv=;prov="] := rfl
 
-/-- shape of the two run loops and of `SidecarAcceptor.Start`'s resume rules. `…FinReturns = true` is the
-repaired rule: the finalization branch returns from the loop. -/
+/-- The semantic essentials of the two run loops, of `SidecarAcceptor.Start`'s resume rules and of the ticket store, as
+regenerated from the source. The extractor canonicalises before it emits (operand order of comparisons, once-assigned
+locals and parameters replaced by their definition / position, conjunctions and mutually exclusive guards as sorted
+sets, if-chains / switches / same-package helpers EVALUATED over the state enum), so behaviour-preserving rewrites
+yield the same facts:
+* the finalization branch returns from the loop (the repaired rule), persists FIRST and then either notifies the other
+  side or deletes the mailbox; the notification guard;
+* the provider's stateUpdateLoop stops on: no state change / expecting / canceled (a set);
+* the simulated starting packets; the readers' retry branch only re-creates the mailbox and can never end the reader;
+* `TicketExecuted` stops the negotiator;
+* resume: a stored "offered" provider ticket resumes as "created", everything else (and every recipient ticket) as
+  stored; only non-terminal auto tickets; both tickets of the starting packet are the stored ticket;
+* `removeBidTemplate` tolerates a template that is already gone. -/
 theorem loops_match :
     providerFinReturns = true ∧ receiverFinReturns = true ∧ ticketExecutedStops = true ∧
-    providerFinCalls = ["Driver.UpdateSidecar", "MailBox.SendSidecarPkt", "MailBox.DelAcctMailbox"] ∧
-    receiverFinCalls = ["Driver.UpdateSidecar", "MailBox.SendSidecarPkt", "MailBox.DelSidecarMailbox"] ∧
-    providerFinNotifyCond =
-      "!fin.otherSide && fin.state == sidecar.StateCanceled && a.CurrentState() >= sidecar.StateRegistered" ∧
-    receiverFinNotifyCond = "!fin.otherSide && fin.state == sidecar.StateCanceled" ∧
-    providerLoopBreaks = ["priorState == newPktState.CurrentState",
-      "newPktState.CurrentState == sidecar.StateExpectingChannel",
-      "newPktState.CurrentState == sidecar.StateCanceled"] ∧
+    providerFinFirstCall = "Driver.UpdateSidecar" ∧ receiverFinFirstCall = "Driver.UpdateSidecar" ∧
+    providerFinOtherCalls = ["MailBox.DelAcctMailbox", "MailBox.SendSidecarPkt"] ∧
+    receiverFinOtherCalls = ["MailBox.DelSidecarMailbox", "MailBox.SendSidecarPkt"] ∧
+    providerFinNotifyCond = ["!<-a.ticketFinalized.otherSide", "<-a.ticketFinalized.state == sidecar.StateCanceled",
+      "a.CurrentState() >= sidecar.StateRegistered"] ∧
+    receiverFinNotifyCond = ["!<-a.ticketFinalized.otherSide", "<-a.ticketFinalized.state == sidecar.StateCanceled"] ∧
+    providerLoopBreaks =
+      ["a.stateStepProvider()#0.CurrentState == sidecar.State(atomic.LoadUint32(&a.currentState))",
+       "a.stateStepProvider()#0.CurrentState == sidecar.StateCanceled",
+       "a.stateStepProvider()#0.CurrentState == sidecar.StateExpectingChannel"] ∧
     receiverLoopBreaks = [] ∧
-    providerStartPacket = "if startingPkt.CurrentState == sidecar.StateCreated then startingPkt.ReceiverTicket" ∧
-    receiverStartPacket = "startingPkt.ProviderTicket" ∧
-    -- after a failed receive the readers back off, re-create the mailbox IGNORING the result and read again:
-    -- a receive error (`recvErr`) therefore changes nothing in the model
-    providerReaderRetry = ["_ = MailBox.InitAcctMailbox", "continue"] ∧
-    receiverReaderRetry = ["_ = MailBox.InitSidecarMailbox", "continue"] ∧
-    resumeRemap = [(sOffered, sCreated)] ∧
-    resumeCond = "ticket.Offer.Auto && !ticket.State.IsTerminal()" ∧
-    resumePackets = ["provider=false;CurrentState=ticket.State,ReceiverTicket=ticket,ProviderTicket=ticket",
-      "provider=true;CurrentState=state,ReceiverTicket=ticket,ProviderTicket=ticket"] := by decide
+    providerStartGuard = ["$2.CurrentState == sidecar.StateCreated"] ∧
+    providerStartPacket = "$2.ReceiverTicket" ∧
+    receiverStartGuard = [] ∧ receiverStartPacket = "$2.ProviderTicket" ∧
+    providerReaderRetryCalls = ["MailBox.InitAcctMailbox"] ∧ providerReaderRetryCanEnd = false ∧
+    receiverReaderRetryCalls = ["MailBox.InitSidecarMailbox"] ∧ receiverReaderRetryCanEnd = false ∧
+    resumeRemap = [(sOffered, sCreated)] ∧ recipientResumeRemap = [] ∧
+    resumeCond = ["!$ticket.State.IsTerminal()", "$ticket.Offer.Auto"] ∧
+    resumePackets = ["provider=false;ProviderTicket=$ticket,ReceiverTicket=$ticket",
+      "provider=true;ProviderTicket=$ticket,ReceiverTicket=$ticket"] := by decide
 
-/-- `clientdb.removeBidTemplate` / `DB.UpdateSidecar` have the shape `removeBidTemplate`/`updateSidecarDB` model: in
-particular a template that is already gone (`ErrBucketNotFound`) is tolerated. -/
+/-- `clientdb.removeBidTemplate` / `DB.UpdateSidecar` as `removeBidTemplate`/`updateSidecarDB` model them: the two
+early-nil guards, the terminal-state guard, and a template that is already gone (`ErrBucketNotFound`) is tolerated. -/
 theorem removeBidTemplate_matches :
-    removeBidTemplateShape = ["bidBucket := sidecarBucket.Bucket", "if bidBucket == nil return nil",
-      "if ticketNonce == order.ZeroNonce return nil", "err := bidBucket.DeleteBucket",
-      "if err != bbolt.ErrBucketNotFound return err", "return nil"] ∧
-    updateSidecarTemplateGuard = "ticket.State.IsTerminal() && ticket.Order != nil" := by decide
+    removeBidTemplateNilGuards = ["$1.Bucket(bidTemplateBucket) == nil", "$2 == order.ZeroNonce"] ∧
+    removeBidTemplateToleratesMissing = true ∧
+    updateSidecarTemplateGuard = ["$1.Order != nil", "$1.State.IsTerminal()"] := by decide
 
 theorem finReturns_true : finReturns = true := by decide
 
@@ -85,17 +90,23 @@ def provSel (cur rs ps : Nat) : Nat :=
   if cur = 0 ∧ ps = 1 then 0 else if cur = 1 ∧ rs = 2 then 1 else if rs = 6 then 2
   else if cur = 2 then 3 else if cur = 4 ∧ rs = 2 then 5 else if cur = 3 then 5 else 6
 
+/-- closed form of the recipient's clause selection, in terms of clause SIGNATURES (independent of the order of
+mutually exclusive clauses in the source): proved by deciding every atom of every guard -/
 theorem recp_select (cur : Nat) (r p : Ticket) :
-    selectCase recipientCases cur (some r) (some p) = some (recpSel cur r.state p.state) := by
-  simp only [selectCase, selectFrom, recipientCases, evalAtoms, fieldVal, fallTo, Option.map, recpSel]
-  repeat' split
-  all_goals simp_all
+    selectBodyR cur (some r) (some p) = some (recpSel cur r.state p.state) := by
+  unfold recpSel selectBodyR selectCase
+  by_cases h1 : p.state = 1 <;> by_cases h2 : cur = 2 <;> by_cases h3 : r.state = 2 <;>
+    by_cases h4 : p.state = 2 <;> by_cases h5 : p.state = 3 <;> by_cases h6 : p.state = 6 <;>
+    by_cases h7 : cur = 4 <;>
+    simp [selectFrom, recipientCases, evalAtoms, fieldVal, fallTo, bodyOf, sigR, *]
 
 theorem prov_select (cur : Nat) (r p : Ticket) :
-    selectCase providerCases cur (some r) (some p) = some (provSel cur r.state p.state) := by
-  simp only [selectCase, selectFrom, providerCases, evalAtoms, fieldVal, fallTo, Option.map, provSel]
-  repeat' split
-  all_goals simp_all
+    selectBodyP cur (some r) (some p) = some (provSel cur r.state p.state) := by
+  unfold provSel selectBodyP selectCase
+  by_cases h1 : cur = 0 <;> by_cases h2 : p.state = 1 <;> by_cases h3 : cur = 1 <;>
+    by_cases h4 : r.state = 2 <;> by_cases h5 : r.state = 6 <;> by_cases h6 : cur = 2 <;>
+    by_cases h7 : cur = 4 <;> by_cases h8 : cur = 3 <;>
+    simp [selectFrom, providerCases, evalAtoms, fieldVal, fallTo, bodyOf, sigP, *]
 
 theorem validateOrdered_sound (t : Ticket) (h : validateOrdered t = true) : ValidSigned t := by
   unfold validateOrdered verifyOffer verifyOrder at h
